@@ -11,11 +11,18 @@ for f in sorted(glob.glob(os.path.join(ROOT, 'manifest.d', 'C*.json'))):
     c = json.load(open(f))
     targets.append('Props/%s.vo' % c['property_id'])
     for b in c.get('_bins', []): feats.setdefault(tuple(c.get('_features', [])), set()).add(b)
-ok, out = coq_make(targets, timeout=3000)
+# -k: a property whose cone does not build must not stop the others from being prepared;
+# its own check rebuilds the cone and reports the broken obligation itself
+ok, out = coq_make(['-k'] + targets, timeout=3000)
 log(out[-3000:])
-rc = 0 if ok else 1
+if not ok: log('setup: some Coq targets failed to build (their checks will report it)')
+rc = 0
 for fs, bs in feats.items():
     ok, out, _ = cargo_build(sorted(bs), list(fs) or None)
     log(out[-2000:])
-    if not ok: rc = 1
+    if not ok:
+        # retry bin by bin so that one broken harness bin does not leave the others unbuilt
+        for b in sorted(bs):
+            ok1, out1, _ = cargo_build([b], list(fs) or None)
+            if not ok1: log('setup: harness bin %s failed to build (its check will report it)' % b)
 sys.exit(rc)
